@@ -29,7 +29,7 @@ CHECKS = {
         technique='Hypothesis-generated messages, strict reference decoder + differential parse of reference-encoded bytes',
         text='Every generated message (4 classes x field subsets x flags x bodies x serial-counter start values) must be '
              'accepted by a strict spec decoder and parse back identically; reference-encoded variants (either byte '
-             'order, permuted and unknown header fields) must parse to the same message; invalid names, the reserved '
+             'order, permuted and unknown header fields, fields of other message types, extra flag bits) must parse to the same message; invalid names, the reserved '
              'path and the size limit (synthetic limits and the real 2^27 boundary) must raise MarshallingError.',
         note=TRUST),
     'C04': dict(
